@@ -101,7 +101,7 @@ def conn(c):
     return c if isinstance(c, int) and c >= 0 else UNKNOWN_CONN
 
 
-def log_to_events(log, conc=False):
+def log_to_events(log, conc=False, life=False):
     """-> (events: list of Coq terms of type ev, table: list of Coq response terms (the oracle)).
 
     conc=False: at most one request per connection is in flight at any time (the request an authcall / authret / masq /
@@ -210,7 +210,9 @@ def log_to_events(log, conc=False):
             ev.append("EObs (ObsRelay %d %d)" % (c, x.get("n", 0)))
         elif k == "close":
             ev.append("EAct (ConnClosed %d)" % c)
-        # streamres, dgramreply, evtcp, evudp, checkudp, dgramerr, pol, window, release: client-side / C06-C08 / harness detail,
+        elif k == "open" and life:
+            ev.append("@open %d" % c)      # the accept of a new connection (lifecycle LTS: LAccept); not an event of the base LTS
+        # open (life=False), streamres, dgramreply, evtcp, evudp, checkudp, dgramerr, pol, window, release: client-side / C06-C08 / harness detail,
         # judged by the Go verdict
     return ev, table
 
@@ -220,9 +222,12 @@ def cfg_term(cfg):
                                     cfg["maxtx"], cfg["maxrx"])
 
 
-def hist_term(cfg, nconn, log):
-    ev, table = log_to_events(log)
-    return "CHist %s %d%%nat %s\n [%s]\n [%s]" % (cfg_term(cfg), nconn, "true" if cfg["masq"] != 0 else "false",
+def hist_term(cfg, nconn, log, life=False):
+    ev, table = log_to_events(log, life=life)
+    if life:
+        # corr/C01L_Corr.v: the log with the accepts of new connections in place (LOpen c) - CLife
+        ev = ["LOpen %s" % e[6:] if e.startswith("@open ") else "LEv (%s)" % e for e in ev]
+    return "%s %s %d%%nat %s\n [%s]\n [%s]" % ("CLife" if life else "CHist", cfg_term(cfg), nconn, "true" if cfg["masq"] != 0 else "false",
                                                  ";\n  ".join(table), ";\n  ".join(ev))
 
 
@@ -232,8 +237,23 @@ def log_features(log):
     f = set()
     pend, verdicts = {}, {}
     ids, emptyc = {}, set()
+    ended_acc, fresh = set(), set()
     for x in log:
         k, c = x["k"], x.get("c")
+        if k == "open" and ended_acc:
+            fresh.add(c)
+            f.add("connection-opened-after-an-accepted-connection-ended")
+            if x.get("res"):
+                f.add("connection-opened-from-the-socket-of-an-ended-connection")
+        if k == "close" and c in acc:
+            ended_acc.add(c)
+        if c in fresh and c not in acc and ((k == "stream" and x.get("ft") == 0x401) or k == "dgram"):
+            f.add("proxy-attempt-on-unaccepted-connection-opened-after-an-accepted-one-ended")
+        if c in fresh and k == "authret" and x.get("ok"):
+            f.add("accept-on-connection-opened-after-an-accepted-one-ended")
+        if (k == "req" and not x.get("af") and x.get("m") == "POST" and x.get("p") == "/auth" and "hysteria" in (x.get("h") or "").lower()
+                and (x.get("auth") or "").startswith("good")):
+            f.add("near-miss-authority-with-acceptable-credentials")
         if k == "authcall":
             pend[c] = x.get("auth", "")
         if k == "authret" and c in pend:
